@@ -303,6 +303,21 @@ pub fn apply_preexec(s: &mut Sim, pid: i32) {
     for c in report.calls.iter() {
         let mut op = c.op.clone();
         let (ret, errno) = apply_child_op(s, pid, &mut op);
+        if matches!(op, ChildOp::Write { .. }) && c.ret >= 0 && (ret, errno) == (-1, libc::EPIPE) {
+            // the parent closed its end of the pipe between the fork and this (atomic, deferred)
+            // step: the forked child wrote while the reader still existed.  What the child does
+            // next does not depend on the result (it only reports a failed launch and exits),
+            // so the new outcome stands: the process dies of SIGPIPE if that is the default by now.
+            s.k.probe("preexec_write_after_reader_closed");
+            let fatal = s.k.proc(pid).disp[SIGPIPE as usize] == Disp::Default;
+            if fatal && s.k.is_alive(pid) {
+                s.k.proc_mut(pid).launch_failed = true;
+                s.k.exit_proc(pid, ExitCause::Signal(SIGPIPE));
+                terminal = true;
+                break;
+            }
+            continue;
+        }
         if ret != c.ret || errno != c.errno {
             s.harness_error.get_or_insert(format!("replay divergence in pre-exec call {:?}: recorded ({},{}) now ({},{})", c.op, c.ret, c.errno, ret, errno));
             s.k.probe("replay_divergence");
